@@ -292,6 +292,8 @@ def element_measures_stream(ctx, n):
 
 
 def correspondence(ctx):
+    from props import c03
+    c03.polyhedron_eq_stream(ctx, ctx.budget(15, 150), prefix="C17")
     element_measures_stream(ctx, ctx.budget(45, 450))
     polygon_stream(ctx, ctx.budget(60, 1500))
     simplex_stream(ctx, ctx.budget(80, 1500))
